@@ -51,6 +51,8 @@ CheckLine(k) ==
         /\ Clause("C04_refusedOnlyIfFew", C04_refusedOnlyIfFew(pre, op, res, post),
                   IF KF_WaitingNewcomer(pre, op, res, post) THEN "KF-C04-waiting-newcomer" ELSE "", k)
         /\ Clause("C04_shortDeck", C04_shortDeck(pre, op, res, post), "", k)
+        /\ Clause("C04_onlyRotationMovesButtons", C04_onlyRotationMovesButtons(pre, op, res, post), "", k)
+        /\ Clause("C04_drawnOnce", C04_drawnOnce(pre, op, res, post), "", k)
         /\ Clause("C03_smUnique", C03_smUnique(pre, op, res, post), "", k)
         /\ Clause("C03_smErrorUnchanged", C03_smErrorUnchanged(pre, op, res, post), "", k)
         /\ Clause("C03_smRotateKeepsMembers", C03_smRotateKeepsMembers(pre, op, res, post), "", k)
